@@ -129,15 +129,31 @@ class RateLimiter(BaseRateLimiter):
             rule_res = max(rules)[0]
             max_interval = max(rule_res, max_interval)
 
+        # rules for a specific address may use longer intervals than the "ip" rules
+        specific_intervals = {}
+        for key, address_rules in self.rules.items():
+            if key in ("global", "ip"):
+                continue
+            try:
+                packed = ip_address(key).packed
+            except ValueError:
+                continue
+            for rules in address_rules.values():
+                if rules:
+                    specific_intervals[packed] = max(
+                        max(rules)[0], specific_intervals.get(packed, 0)
+                    )
+
         now = self._timestamp()
         to_del = []
         for ip, commands in self.recent_commands.items():
             if ip == "global":
                 continue
 
+            ip_interval = max(max_interval, specific_intervals.get(ip, 0))
             cleared = []
             for cmd, ts in commands.items():
-                if (not ts) or (now - ts[0]) > max_interval:
+                if (not ts) or (now - ts[0]) > ip_interval:
                     ts.clear()
                     cleared.append(cmd)
             if len(cleared) == len(commands):
